@@ -51,6 +51,7 @@ impl Sim {
             policy: self.policy.clone(),
             hooks: self.hooks,
             fsize: None,
+            fsize_error: false,
             decisions: self.decisions.clone(),
         }
     }
